@@ -1871,4 +1871,142 @@ theorem labelsOK_kNormEntry {g : GoMap} (hkm : KeyMap g) (hok : LabelsOK g) :
   rw [labelsOK_iff_normLabels, this, ← labelsOK_iff_normLabels]
   exact hok
 
+theorem baseMap_congr (k k2 : Key) (e1 : k2.kty = k.kty) (e2 : k2.id = k.id) (e3 : k2.alg = k.alg)
+    (e4 : k2.ops = k.ops) (e5 : k2.baseIV = k.baseIV) : baseMap k2 = baseMap k := by
+  unfold baseMap
+  rw [e1, e2, e3, e4, e5]
+
+theorem retype_kval (kty : Int) (l : GoVal) {v : GoVal} (hv : KVal v) : KVal (retypeVal kty l v) := by
+  unfold retypeVal
+  split
+  · split
+    · simp only [KVal] at hv ⊢; exact hv
+    · exact hv
+  · exact hv
+
+theorem padVal_nonbytes_norm (s : Nat) (v : GoVal) (h : ∀ b, v ≠ .bytes b) :
+    padVal s (kNorm v) = kNorm v := by
+  cases v <;> first | rfl | exact absurd rfl (h _)
+
+/-- padding, decoding, retyping and padding again changes nothing the encoder can see -/
+theorem pad_cycle (s : Nat) (kty : Int) (l v : GoVal) (hl : (lbl (-1)).keyEq l = false) :
+    kNorm (padVal s (retypeVal kty l (kNorm (padVal s v)))) = kNorm (padVal s v) := by
+  have hr : ∀ x, retypeVal kty l x = x := by
+    intro x
+    unfold retypeVal
+    rw [if_neg (fun h => by rw [hl] at h; exact absurd h.2 (by decide))]
+  rw [hr]
+  by_cases hb : ∃ b, v = .bytes b
+  · obtain ⟨b, rfl⟩ := hb
+    simp only [padVal, kNorm, normVal, leftPad_idem]
+  · have hnb : ∀ b, v ≠ .bytes b := fun b e => hb ⟨b, e⟩
+    have hp : padVal s v = v := by
+      cases v <;> first | rfl | exact absurd rfl (hnb _)
+    rw [hp, padVal_nonbytes_norm s v hnb, kNorm_idem]
+
+/-- after one round trip the serialised map is, up to the decoder's typing, the same -/
+theorem wireLookup_roundtrip (k k2 : Key) (hd : ParamsDisjoint k)
+    (e1 : k2.kty = k.kty) (e2 : k2.id = k.id) (e3 : k2.alg = k.alg) (e4 : k2.ops = k.ops)
+    (e5 : k2.baseIV = k.baseIV)
+    (hplk : ∀ l, normalizeLabel l = some l → ¬ isCommon l → k2.params.lookup l = wireParam k l)
+    (hplc : ∀ l, isCommon l → k2.params.lookup l = none)
+    (hcrv : k.kty = 1 ∨ k.kty = 2 → k2.crv = k.crv) (l : GoVal) (hl : normalizeLabel l = some l) :
+    (wireLookup k2 l).map kNorm = (wireLookup k l).map kNorm := by
+  by_cases hc : isCommon l
+  · have hd2 : ParamsDisjoint k2 :=
+      ⟨hplc _ (Or.inl rfl), hplc _ (Or.inr (Or.inl rfl)), hplc _ (Or.inr (Or.inr (Or.inl rfl))),
+        hplc _ (Or.inr (Or.inr (Or.inr (Or.inl rfl)))), hplc _ (Or.inr (Or.inr (Or.inr (Or.inr rfl))))⟩
+    have hi : ∃ i : Int, (1 ≤ i ∧ i ≤ 5) ∧ l = lbl i := by
+      rcases hc with h | h | h | h | h
+      · exact ⟨1, by decide, h⟩
+      · exact ⟨2, by decide, h⟩
+      · exact ⟨3, by decide, h⟩
+      · exact ⟨4, by decide, h⟩
+      · exact ⟨5, by decide, h⟩
+    obtain ⟨i, hi, rfl⟩ := hi
+    rw [wireLookup_common k2 hd2 i hi, wireLookup_common k hd i hi, baseMap_congr k k2 e1 e2 e3 e4 e5]
+  · have hk2 : k2.params.lookup l = wireParam k l := hplk l hl hc
+    have eta : ∀ o : Option GoVal, (match o with | some v => some v | none => none) = o := by
+      intro o; cases o <;> rfl
+    have w2 : wireLookup k2 l =
+        if k.kty = 2 ∧ ((lbl (-2)).keyEq l = true ∨ (lbl (-3)).keyEq l = true)
+          then (wireParam k l).map (padVal (curveSize k2.crv)) else wireParam k l := by
+      unfold wireLookup
+      simp only [hk2, baseMap_lookup_other k2 l hc, eta, e1]
+    have w1 : wireLookup k l =
+        if k.kty = 2 ∧ ((lbl (-2)).keyEq l = true ∨ (lbl (-3)).keyEq l = true)
+          then (k.params.lookup l).map (padVal (curveSize k.crv)) else k.params.lookup l := by
+      unfold wireLookup
+      simp only [baseMap_lookup_other k l hc, eta]
+    rw [w2]
+    unfold wireParam
+    rw [w1]
+    by_cases hcond : k.kty = 2 ∧ ((lbl (-2)).keyEq l = true ∨ (lbl (-3)).keyEq l = true)
+    · rw [if_pos hcond, hcrv (Or.inr hcond.1)]
+      have hl1 : (lbl (-1)).keyEq l = false := by
+        rcases hcond.2 with h | h <;> rw [(lbl_keyEq_iff _ l).mp h] <;> simp [C14.keyEq_lbl_lbl]
+      cases k.params.lookup l with
+      | none => rfl
+      | some v =>
+        simp only [Option.map_some]
+        rw [pad_cycle _ _ _ _ hl1]
+    · rw [if_neg hcond]
+      cases k.params.lookup l with
+      | none => rfl
+      | some v =>
+        simp only [Option.map_some]
+        rw [kNorm_retype_norm]
+
+/-- MAIN (fixpoint): a flat key accepted by `UnmarshalCBOR` re-encodes, the re-encoding decodes
+    again, and encoding that key reproduces the same bytes -/
+theorem reencode_core (b : Bytes) (k : Key) (hu : Key.unmarshal b = .ok k) (hf : KeyFlat k)
+    (hs : KeySize k) :
+    ∃ m k2, k.marshalMap = some m ∧ k.marshal = .ok (kMapWire m).bytes ∧
+      Key.unmarshal (kMapWire m).bytes = .ok k2 ∧ k2.marshal = .ok (kMapWire m).bytes ∧
+      k2.kty = k.kty ∧ k2.id = k.id ∧ k2.alg = k.alg ∧ k2.ops = k.ops ∧ k2.baseIV = k.baseIV ∧
+      (∀ l, normalizeLabel l = some l → ¬ isCommon l → k2.params.lookup l = wireParam k l) ∧
+      (∀ l, isCommon l → k2.params.lookup l = none) ∧
+      (∀ n : Int, int64Range n → n < 0 → k2.pbytes n = wirePbytes k n) ∧
+      (k.kty = 1 ∨ k.kty = 2 → k2.crv = k.crv) ∧ KeyFlat k2 := by
+  obtain ⟨hpw, hd, hv⟩ := accepted_params b k hu
+  have hokp : LabelsOK k.params := labelsOK_of_keyMap_pairwise hf.params.normal hpw
+  obtain ⟨m, hm⟩ := marshalMap_some k hf.params.normal hokp
+  obtain ⟨hkm, hok, hlen⟩ := marshalMap_inv hf hm
+  obtain ⟨k2, h0, e1, e2, e3, e4, e5, e6, hplk, hplc, hpb, hcrv⟩ :=
+    key_roundtrip_core k hf hd hv m hm
+  have hb := C14.marshal_of_marshalMap hf hm
+  have hu2 : Key.unmarshal (kMapWire m).bytes = .ok k2 := by
+    rw [unmarshal_bytes hkm.kmap hok (Nat.le_trans hlen hs)]; exact h0
+  have hkm' : KeyMap ((sortEntries m).map kNormEntry) :=
+    KeyMap.normEntry (fun e he => hkm e ((sortEntries_perm m).mem_iff.mp he))
+  have hf2 : KeyFlat k2 := by
+    refine { kty := by rw [e1]; exact hf.kty, alg := by rw [e3]; exact hf.alg,
+             id := by rw [e2]; exact hf.id, ops := by rw [e4]; exact hf.ops,
+             baseIV := by rw [e5]; exact hf.baseIV, params := ?_ }
+    rw [e6]
+    intro e he
+    obtain ⟨e0, he0, rfl⟩ := List.mem_map.mp he
+    have := hkm' e0 (mem_erase5 he0)
+    exact ⟨this.1, retype_kval _ _ this.2⟩
+  obtain ⟨hpw2, _, _⟩ := accepted_params _ k2 hu2
+  have hokp2 : LabelsOK k2.params := labelsOK_of_keyMap_pairwise hf2.params.normal hpw2
+  obtain ⟨m2, hm2⟩ := marshalMap_some k2 hf2.params.normal hokp2
+  obtain ⟨hkm2, hok2, _⟩ := marshalMap_inv hf2 hm2
+  have hperm : (m2.map kNormEntry).Perm (m.map kNormEntry) := by
+    apply perm_of_lookup_eq (labelsOK_kNormEntry hkm2 hok2) (KeyMap.normEntry hkm2).normal
+      (labelsOK_kNormEntry hkm hok) (KeyMap.normEntry hkm).normal
+    intro l hl
+    rw [lookup_kNormEntry hkm2, lookup_kNormEntry hkm, marshalMap_lookup k2 m2 hm2 hf2.params.normal,
+      marshalMap_lookup k m hm hf.params.normal]
+    exact wireLookup_roundtrip k k2 hd e1 e2 e3 e4 e5 hplk hplc hcrv l hl
+  have henc : encodeAny encCfg (.map m2) = encodeAny encCfg (.map m) := by
+    rw [← encode_kNormEntry encCfg hkm2.kmap, ← encode_kNormEntry encCfg hkm.kmap]
+    exact C08.encode_map_perm_invariant encCfg _ _ hperm
+      (fun ps hps => (C08.keys_nodup_of_labelsOK encCfg _ (labelsOK_kNormEntry hkm2 hok2) ps hps).1)
+  have hb2 : k2.marshal = .ok (kMapWire m).bytes := by
+    rw [C14.marshal_of_marshalMap hf2 hm2]
+    rw [encodeAny_map_k encCfg hkm2.kmap, encodeAny_map_k encCfg hkm.kmap] at henc
+    rw [Option.some.inj henc]
+  exact ⟨m, k2, hm, hb, hu2, hb2, e1, e2, e3, e4, e5, hplk, hplc, hpb, hcrv, hf2⟩
+
 end KeyRT
